@@ -13,7 +13,7 @@ RULE = ("Hypothesis-generated triples of Capacities over all 8 fields (values 0.
         "in >= 2 fields with mixed order (some field a<b and some a>b). Distinct by hash of the case.")
 ASSUMPTIONS = ["Capacities fields are the 8 documented ones; values are non-negative ints as the setter demands"]
 BUDGET = {"quick": 30000, "thorough": 2000000}
-MIN_LABEL_FRACTION = {"mixed-order": 0.15, "has-zero-field": 0.3, "a-fits-b": 0.03}
+MIN_LABEL_FRACTION = {"mixed-order": 0.15, "has-zero-field": 0.3, "a-fits-b": 0.03, "negative-vs-zero-field": 0.1}
 
 _val = st.one_of(st.sampled_from([0, 0, 1, 2, 7, 2 ** 31, 2 ** 62]), st.integers(0, 16), st.integers(0, 2 ** 62))
 
@@ -115,6 +115,20 @@ def run_case(case):
             pf1 = guarded("positive_fields", lambda: d.positive_fields(case["F"][0]))
             if pf1 is not None:
                 chk("positive_fields/str-arg", bool(pf1) == (exp[case["F"][0]] > 0))
+        # capacities with negative fields (only reachable as results of a subtraction) are capacity values too:
+        # the fits-within comparisons must agree with subtraction for them as well, on either side
+        for name, x, y, dx, dy in (("neg-right", c, d, dc, exp), ("neg-left", d, c, exp, dc)):
+            lt2 = guarded("lt", lambda: x < y)
+            gt2 = guarded("gt", lambda: y > x)
+            diff2 = guarded("sub", lambda: y - x)
+            if lt2 is not None and gt2 is not None and diff2 is not None:
+                fits2 = all(dy[f] - dx[f] >= 0 for f in FIELDS)
+                chk(f"lt/agrees-with-sub/{name}", bool(lt2) == fits2 and bool(lt2) == (diff2.negative_fields() == []),
+                    f"x<y={lt2} fits={fits2} x={dx} y={dy}")
+                chk(f"gt/agrees-with-sub/{name}", bool(gt2) == fits2, f"y>x={gt2} fits={fits2} x={dx} y={dy}")
+        back = guarded("add", lambda: d + a)
+        if back is not None:
+            chk("sub-add-inverse", fd(back) == db, f"(b-a)+a={fd(back)}")
     z = guarded("sub", lambda: a - a)
     if z is not None:
         chk("sub/self-zero", all(x == 0 for x in fd(z).values()) and z.negative_fields() == [])
@@ -157,5 +171,7 @@ def run_case(case):
         labels.append("equal")
     if any(x >= 2 ** 31 for x in list(da.values()) + list(db.values())):
         labels.append("large")
+    if any(db[f] - da[f] < 0 and dc[f] == 0 for f in FIELDS):
+        labels.append("negative-vs-zero-field")
     nt = bool(lower and higher and len(lower) + len(higher) >= 2)
     return {"v": v, "nt": nt, "labels": labels}
